@@ -336,7 +336,8 @@ def run(ctx):
             ximpl.update(json.loads(out))
     rstats = {"rebind_programs": len(rb), "rebind_rejected_as_required": 0, "comptime_programs": len(ct),
               "comptime_accepted_with_provenance": 0, "comptime_rejected_allowed": 0,
-              "comptime_by_kind": {}}
+              "comptime_by_kind": {}, "rebind_violations": 0, "comptime_violations": 0}
+    rb_bad = ct_bad = 0
     for c in rb:
         res = ximpl.get(c["id"], {})
         f = res.get("funcs", {}).get("cal", {})
@@ -355,7 +356,9 @@ def run(ctx):
             detail["output_for_borrowed_parameter_depends_on_its_input"] = ("in", k) in d
         elif res.get("error"):
             detail["compile_error_after_acceptance"] = res.get("error")
-        ctx.report(f"rebind:{c['id']}", "counterexample", "a callee that rebinds a borrowed parameter is not rejected with BorrowShadowedError", detail)
+        rb_bad += 1
+        if rb_bad <= 3 or ctx.is_known(f"rebind:{c['id']}"):
+            ctx.report(f"rebind:{c['id']}", "counterexample", "a callee that rebinds a borrowed parameter is not rejected with BorrowShadowedError", detail)
     # ---- comptime callers: the value read after the call derives from the call's output ---------
     for c in ct:
         res = ximpl.get(c["id"], {})
@@ -364,6 +367,7 @@ def run(ctx):
                 "replay": "write `src` to a file on PYTHONPATH=/verif/tools:<repo>/guppylang/src:<repo>/guppylang-internals/src and run caller.compile_function() with /venv/bin/python"}
         if not res.get("ok"):
             if c["must_accept"]:
+                ct_bad += 1
                 ctx.report(f"comptime:{ctx.seed}:{c['id']}", "counterexample",
                            "a comptime caller lending lists of wires is rejected", dict(base, error=res.get("error")))
             else:
@@ -379,7 +383,9 @@ def run(ctx):
             (c["forbid_port"] is None or ("out", calls[0], c["forbid_port"]) not in d)
         if good:
             rstats["comptime_accepted_with_provenance"] += 1
-        else:
+            continue
+        ct_bad += 1
+        if ct_bad <= 3:
             ctx.report(f"comptime:{ctx.seed}:{c['id']}", "counterexample",
                        "after a borrowing call from a comptime caller the element read does not come from the call's output for that parameter",
                        dict(base, compiled_caller=pretty_tr(norm_impl(f, {})),
@@ -415,6 +421,7 @@ def run(ctx):
                    {"case": c, "implementation": i, "required_[ins,outs]": s})
     if not model_ok and info["ok"]:
         ctx.report("model-eval", "proof-broken", "model evaluation failed", {"notes": notes}, found_input=False)
+    rstats["rebind_violations"], rstats["comptime_violations"] = rb_bad, ct_bad
     cov = proof_coverage(
         info, "make -f Makefile.C07 C07/Props.vo && coqc C07/Props.v (Print Assumptions)",
         ["Coq 8.16.1 kernel",
